@@ -13,7 +13,9 @@ from __future__ import annotations
 
 import copy
 import itertools
+import multiprocessing
 import os
+import pickle
 import queue
 import shutil
 import tempfile
@@ -85,6 +87,8 @@ TOL = 1e-12
 
 def exc_site(e: BaseException) -> str:
     """<ExceptionType>@<qualified name of the innermost pipefunc function on the traceback>."""
+    if getattr(e, "remote_site", None):
+        return e.remote_site
     tb, last = e.__traceback__, None
     root = os.path.join(boot.REPO, "pipefunc") + os.sep
     while tb is not None:
@@ -395,7 +399,7 @@ def disk_view(x, env: Env):
 
 
 def do_put(x, k, v, dur, env: Env):
-    if isinstance(x, DiskCache):
+    if isinstance(x, DiskCache) or getattr(x, "is_disk", False):
         env.wait_after_dir(x.cache_dir)
     if isinstance(x, (HybridCache, HybridModel)):
         raise TypeError("hybrid puts go through hybrid_put")
@@ -559,7 +563,7 @@ def hybrid_put(out, name, model: HybridModel, impl, op, keys, where):
     try:
         impl.put(k, v, dur)
     except Exception as e:  # noqa: BLE001
-        out.fail(f"{name}:{oc}:raised:{exc_site(e)}", f"{where}: {exc_detail(e)}")
+        out.fail(f"{name}:{'put-full' if cands is not None else 'put'}:raised:{exc_site(e)}", f"{where}: {exc_detail(e)}")
         return False
     present = {x for x in set(keys) | before | {k} if _try(lambda x=x: x in impl) is True}
     missing = before - present - {k}
@@ -800,6 +804,124 @@ def seq_build(data, env: Env, max_size, lru_size):
     return c
 
 
+class RemoteError(Exception):
+    """An exception raised by a cache operation in another process (type, site and message travel back)."""
+
+    def __init__(self, type_name, site, msg):
+        super().__init__(f"{type_name} in child process: {msg}")
+        self.remote_site = site
+
+
+def _remote_main(conn, cache, via):
+    try:
+        if via == "pickle":  # the route a cache takes into an executor's worker process
+            cache = pickle.loads(pickle.dumps(cache))
+        while True:
+            msg = conn.recv()
+            if msg is None:
+                break
+            try:
+                conn.send(("ok", _remote_call(cache, *msg)))
+            except Exception as e:  # noqa: BLE001
+                conn.send(("exc", type(e).__name__, exc_site(e), str(e)[:200]))
+    except (EOFError, OSError):
+        pass
+    finally:
+        os._exit(0)
+
+
+def _remote_call(cache, kind, args):
+    if kind == "put":
+        return cache.put(*args)
+    if kind == "get":
+        return cache.get(*args)
+    if kind == "in":
+        return args[0] in cache
+    if kind == "len":
+        return len(cache)
+    if kind == "clear":
+        return cache.clear()
+    if kind == "counts":
+        return dict(cache.access_counts)
+    if kind == "durations":
+        return dict(cache.computation_durations)
+    raise AssertionError(kind)
+
+
+class RemoteCache:
+    """The cache under test, operated from several real processes, one operation at a time.
+
+    Children are forked after the shared cache exists (they inherit it, or a pickled copy of it); `current`
+    selects the process that issues the next operation (-1: the creating process itself)."""
+
+    def __init__(self, cache, nprocs, via):
+        self.cache = cache
+        self.is_disk = isinstance(cache, DiskCache)
+        self.cache_dir = getattr(cache, "cache_dir", None)
+        self.max_size = cache.max_size
+        self.current = -1
+        ctx = multiprocessing.get_context("fork")
+        self.children = []
+        for _ in range(nprocs):
+            a, b = ctx.Pipe()
+            pr = ctx.Process(target=_remote_main, args=(b, cache, via), daemon=True)
+            pr.start()
+            b.close()
+            self.children.append((pr, a))
+
+    def _call(self, kind, *args):
+        if self.current < 0:
+            return _remote_call(self.cache, kind, args)
+        pr, conn = self.children[self.current % len(self.children)]
+        try:
+            conn.send((kind, args))
+            if not conn.poll(60.0):
+                raise RemoteError("Timeout", "child-process-timeout", f"{kind}{args} did not return within 60 s")
+            r = conn.recv()
+        except (EOFError, OSError) as e:
+            raise RemoteError(type(e).__name__, "child-process-died", str(e)) from None
+        if r[0] == "ok":
+            return r[1]
+        raise RemoteError(r[1], r[2], r[3])
+
+    def put(self, *a):
+        return self._call("put", *a)
+
+    def get(self, k):
+        return self._call("get", k)
+
+    def __contains__(self, k):
+        return self._call("in", k)
+
+    def __len__(self):
+        return self._call("len")
+
+    def clear(self):
+        return self._call("clear")
+
+    @property
+    def access_counts(self):
+        return self._call("counts")
+
+    @property
+    def computation_durations(self):
+        return self._call("durations")
+
+    def close(self):
+        for pr, conn in self.children:
+            try:
+                conn.send(None)
+            except Exception:  # noqa: BLE001
+                pass
+        for pr, conn in self.children:
+            pr.join(2.0)
+            if pr.is_alive():
+                pr.kill()
+                pr.join(5.0)
+            conn.close()
+        self.children = []
+
+
 def body_seq(data) -> Outcome:
     out = Outcome()
     cls = data["cls"]
@@ -824,7 +946,21 @@ def body_seq(data) -> Outcome:
             labels.append("disk:lru" if lru_size else "disk:no-lru")
             labels.append("disk:avoid-multi-evict" if avoid_multi else "disk:multi-evict-allowed")
             labels.append("disk:unbounded" if max_size is None else "disk:bounded")
-        impl = seq_build(data, env, max_size, lru_size)
+        mp_cfg = data.get("mp")
+        remotes: list = []
+
+        def wrap(c):
+            if not mp_cfg:
+                return c
+            for r in remotes:
+                r.close()
+            del remotes[:]
+            remotes.append(RemoteCache(c, mp_cfg["procs"], mp_cfg["via"]))
+            return remotes[0]
+
+        if mp_cfg:
+            labels += [f"mp:procs-{mp_cfg['procs']}", f"mp:via-{mp_cfg['via']}"]
+        impl = wrap(seq_build(data, env, max_size, lru_size))
         tainted = False  # an LRU-layer re-put of a resident key has happened
         pending_shrink = False
         evicted_ever: set = set()
@@ -861,11 +997,17 @@ def body_seq(data) -> Outcome:
                     new_max = max(new_max, len(model.files), 1)
                 labels.append("disk:reopen-" + ("same" if new_max == max_size else "unbounded" if new_max is None else
                                                 "smaller" if max_size is None or new_max < max_size else "larger"))  # fmt: skip
+                for r in remotes:
+                    r.close()
+                del remotes[:]
                 env.shutdown_managers()
                 max_size, lru_size = new_max, new_lru
                 model = DiskModel(max_size, lru_size, files=model.files)
                 try:
-                    impl = seq_build(data, env, max_size, lru_size)
+                    for r in remotes:
+                        r.close()
+                    del remotes[:]
+                    impl = wrap(seq_build(data, env, max_size, lru_size))
                 except Exception as e:  # noqa: BLE001
                     out.fail(f"{name}:reopen:raised:{exc_site(e)}", f"{fmt_path(path)}: {exc_detail(e)}")
                     break
@@ -916,6 +1058,15 @@ def body_seq(data) -> Outcome:
             path.append(op)
             where = fmt_path(path[-12:]) + (f" (op {len(path)}{', tail' if is_tail else ''})")
             local = Outcome()
+            if mp_cfg:
+                route = mp_cfg["route"]
+                impl.current = route[idx % len(route)] % mp_cfg["procs"] if route else 0
+                if avoid and cls == "hybrid" and op[0] == "put" and len(model) >= max_size:
+                    impl.current = -1  # constructed around: invalidation only ever happens in the creating process
+                    labels.append("mp:eviction-in-creating-process")
+                elif cls == "hybrid" and op[0] == "put" and len(model) >= max_size:
+                    labels.append("mp:eviction-in-other-process")
+                where += f" [process {impl.current}]"
             ok = apply_checked(local, name, model, impl, op, keys + FRESH[:nprobe], env, where)
             units += 1
             if ok:
@@ -967,6 +1118,8 @@ def body_seq(data) -> Outcome:
         labels.append("ops:" + ("<=10" if len(ops) <= 10 else "<=25" if len(ops) <= 25 else ">25"))
         out.labels = sorted(set(labels))
     finally:
+        for r in locals().get("remotes", []):
+            r.close()
         env.close()
     return out
 
@@ -1034,6 +1187,36 @@ def seq_cases(draw):
             if draw(st.booleans()):
                 ops.append(["reopen", "larger2", draw(st.sampled_from([0, 2]))])
     d["ops"] = ops
+    return d
+
+
+@st.composite
+def mp_cases(draw):
+    """seq cases on shared caches whose operations are issued, one at a time, from 2-3 real processes."""
+    cls = draw(st.sampled_from(["lru", "lru", "hybrid", "hybrid", "disk"]))
+    nkeys = draw(st.integers(2, 5))
+    d = {"cls": cls, "shared": True, "cloudpickle": draw(st.booleans()), "nkeys": nkeys, "avoid": draw(st.booleans()),
+         "max_size": draw(st.integers(1, 3))}  # fmt: skip
+    if cls == "hybrid":
+        d["aw"], d["dw"] = draw(st.sampled_from([[0.5, 0.5], [1.0, 0.0], [0.3, 0.7]]))
+    if cls == "disk":
+        d["lru_size"] = draw(st.sampled_from([1, 2, 128]))
+        d["avoid_multi"] = True
+    ops = []
+    for _ in range(draw(st.integers(2, 14))):
+        kind = draw(st.sampled_from(["put", "put", "put", "get", "get", "in", "len", "clear"]))
+        if kind == "put":
+            op = ["put", draw(st.integers(0, nkeys - 1)), draw(_values)]
+            if cls == "hybrid":
+                op.append(draw(st.sampled_from([1e-3, 0.5, 1.0, 1.0, 2.0, 10.0])))
+            ops.append(op)
+        elif kind in ("get", "in"):
+            ops.append([kind, draw(st.integers(0, nkeys - 1))])
+        else:
+            ops.append([kind])
+    d["ops"] = ops
+    d["mp"] = {"procs": draw(st.integers(2, 3)), "via": draw(st.sampled_from(["fork", "pickle"])),
+               "route": draw(st.lists(st.integers(0, 2), min_size=1, max_size=8))}  # fmt: skip
     return d
 
 
@@ -1426,7 +1609,11 @@ def run_interleaving(data, schedule):
         return fails, baton, info
     for tid, i, kind, k, e, n0, n1 in errors:
         interrupted = any(t != tid for t, _ in baton.trace[n0:n1])
-        fails.append((f"{name}:{taint}{kind}-raised:{exc_site(e)}" + (":interleaved" if interrupted else ":uninterrupted"),
+        site = exc_site(e)
+        # a KeyError from get()'s own dict read means the key vanished after get's membership test: that needs another
+        # thread in between and is independent of the queue state, so it is never attributed to the re-put deviation
+        tp = "" if (kind == "get" and interrupted and site in ("KeyError@LRUCache.get", "KeyError@HybridCache.get")) else taint
+        fails.append((f"{name}:{tp}{kind}-raised:{site}" + (":interleaved" if interrupted else ":uninterrupted"),
                       f"thread {tid} op {i} {kind}({k!r}): {exc_detail(e)}; {sched_txt}"))  # fmt: skip
     for tid, i, kind, k, r in results:
         if kind == "get" and r is not None and r not in put_values.get(k, ()):
@@ -1593,6 +1780,9 @@ def campaigns(tier):
                  describe="HybridCache max_size 1-3 x 3 weightings, every history up to depth 7 (quick) / 10 (thorough) modulo model state"),
         Campaign("seq", body_seq, seq_cases(), quick=2400, thorough=60000,
                  describe="drawn op lists on all four classes, shared (real Manager) ~15 %, DiskCache reopen"),
+        Campaign("mp", body_seq, mp_cases(), quick=160, thorough=4000,
+                 describe="seq oracle with the operations issued one at a time from 2-3 real processes (forked, or fork + pickle "
+                          "round trip) on a real Manager-backed cache"),
         Campaign("interleave", body_interleave, ilv_cases(), quick=8000, thorough=200000,
                  describe="drawn programs and schedules on the fake Manager"),
         Campaign("ilv-sys", body_ilv_sys, enumerate=enum_ilv_sys(tier), quick=0, thorough=0, exhaustive=False,
